@@ -35,39 +35,44 @@ theorem entryFacts_of_map {t t' : Table} {op : Op} {r : Res} {F : Fam → Net ×
 
 /-! ## `restale` / `restale_llgr` -/
 
-theorem mem_rd_entries {fam : Fam} {addr : Nat} {FL : Flags} {nd : Net × Dest} {x : Entry}
-    (h : x ∈ (rd fam addr FL nd).1.2.entries) : x ∈ nd.2.entries := by
+theorem mem_rd_entries {fam : Fam} {addr : Nat} {m : Bool} {FL : Flags} {nd : Net × Dest} {x : Entry} :
+    x ∈ (rd fam addr m FL nd).1.2.entries ↔ x ∈ nd.2.entries := by
   cases ht : nd.2.entries.any (sameAddr addr) with
-  | false => rw [rd_untouched fam addr FL nd ht] at h; exact h
-  | true => rw [rd_entries_touched fam addr FL nd ht] at h; exact mem_sortBy.mp h
+  | false => rw [rd_untouched fam addr FL nd ht]
+  | true => rw [rd_entries_touched fam addr FL nd ht]; exact mem_sortBy
 
-theorem restaleGen_dests {c : Case} {g : Nat → Fam} {t : Table} (addr : Nat) (fam : Fam) (m : Bool)
+/-- what `restale` / `restale_llgr` do to the destinations and to the flag sets -/
+theorem restaleGen_spec {c : Case} {g : Nat → Fam} {t : Table} (addr : Nat) (fam : Fam) (m : Bool)
     (hinv : Inv c g t) :
-    ∃ FL, ∀ f, ((t.restaleGen addr fam m).1.rib f).dests
-      = (t.rib f).dests.map fun nd => if f = fam then (rd fam addr FL nd).1 else nd := by
+    ∃ FL, (∀ f, ((t.restaleGen addr fam m).1.rib f).dests
+        = (t.rib f).dests.map fun nd => if f = fam then (rd fam addr m FL nd).1 else nd) ∧
+      (t.restaleGen addr fam m).1.flags = FL ∧ FL.other m = t.flags.other m ∧
+      ∀ i, (FL.marked m).contains i = true ↔
+        ((t.flags.marked m).contains i = true ∨ ∃ nd ∈ (t.rib fam).dests, i ∈ addrIds addr nd) := by
   have hP : ∀ nd ∈ (t.rib fam).dests, ∀ e ∈ nd.2.entries,
       sameAddr addr e = true ↔ PeerId c g addr fam e.src.id :=
     fun nd hnd e he => peerId_iff (((hinv.rib fam).dest nd hnd).srcOk e he)
   have s := restaleLoop_spec fam addr m (PeerId c g addr fam) (t.rib fam).dests t.flags hP
-  refine ⟨(restaleLoop fam addr m (t.rib fam).dests t.flags).1, fun f => ?_⟩
-  rw [restaleGen_eq]
-  have hrib : ∀ (t0 : Table) (a b : List Nat), ({ t0 with stale := a, llgr := b } : Table).rib f = t0.rib f := by
-    intro t0 a b; cases f <;> rfl
-  simp only
-  rw [hrib]
-  by_cases hf : f = fam
-  · subst hf
-    rw [rib_setRib_self]
-    simp only [if_pos]
-    exact s.dests
-  · rw [rib_setRib_ne t hf]
-    simp only [if_neg hf]
-    rw [List.map_id']
+  refine ⟨(restaleLoop fam addr m (t.rib fam).dests t.flags).1, fun f => ?_, ?_, s.other, s.marks⟩
+  · rw [restaleGen_eq]
+    have hrib : ∀ (t0 : Table) (a b : List Nat), ({ t0 with stale := a, llgr := b } : Table).rib f = t0.rib f := by
+      intro t0 a b; cases f <;> rfl
+    simp only
+    rw [hrib]
+    by_cases hf : f = fam
+    · subst hf
+      rw [rib_setRib_self]
+      simp only [if_pos]
+      exact s.dests
+    · rw [rib_setRib_ne t hf]
+      simp only [if_neg hf]
+      rw [List.map_id']
+  · rw [restaleGen_eq]; rfl
 
 theorem restaleGen_entryFacts {c : Case} {g : Nat → Fam} {t : Table} (addr : Nat) (fam : Fam) (m : Bool)
     (op : Op) (hflip : ∀ e, op.flip e = e) (hrep : ∀ f n x0, ¬ op.replaces f n x0) (hinv : Inv c g t) :
     EntryFacts t op (t.restaleGen addr fam m).1 (t.restaleGen addr fam m).2 := by
-  obtain ⟨FL, hd⟩ := restaleGen_dests addr fam m hinv
+  obtain ⟨FL, hd, -⟩ := restaleGen_spec addr fam m hinv
   refine entryFacts_of_map hd ?_ ?_ hrep ?_
   · intro f nd
     by_cases hf : f = fam
@@ -76,7 +81,7 @@ theorem restaleGen_entryFacts {c : Case} {g : Nat → Fam} {t : Table} (addr : N
   · intro f nd _ x hx
     refine ⟨x, ?_, (hflip x).symm⟩
     by_cases hf : f = fam
-    · simp only [if_pos hf] at hx; exact mem_rd_entries hx
+    · simp only [if_pos hf] at hx; exact mem_rd_entries.mp hx
     · simp only [if_neg hf] at hx; exact hx
   · rw [restaleGen_eq]; exact fun h => nomatch h
 
